@@ -8,6 +8,7 @@ package main
 
 import (
 	"context"
+	"errors"
 	"fmt"
 	"sync"
 	"sync/atomic"
@@ -102,7 +103,21 @@ func (s *source) ev(format string, a ...any) int64 {
 	return q
 }
 
-var errScripted = fmt.Errorf("%w: scripted fetch failure", commonerrors.ErrUnexpected)
+var errScriptedBase = errors.New("scripted fetch failure")
+var errScripted = fmt.Errorf("%w: %w", commonerrors.ErrUnexpected, errScriptedBase)
+
+// scriptedErr is the failure of this case's scripted page requests.
+func (s *source) scriptedErr() error {
+	if f := s.spec.Fault; f != nil {
+		switch f.Kind {
+		case "notfound":
+			return fmt.Errorf("%w: %w", commonerrors.ErrNotFound, errScriptedBase)
+		case "empty":
+			return fmt.Errorf("page request: %w", fmt.Errorf("%w: %w", commonerrors.ErrEmpty, errScriptedBase))
+		}
+	}
+	return errScripted
+}
 
 // takeFault reports whether the scripted failure applies to (where, page) now.
 func (s *source) takeFault(where string, page int) bool {
@@ -165,7 +180,7 @@ func (p *pg) GetItemIterator() (pagination.IIterator, error) {
 		if s.firstFaultSeq == 0 {
 			s.firstFaultSeq = q
 		}
-		return nil, errScripted
+		return nil, s.scriptedErr()
 	}
 	s.ev("GetItemIterator(page %d)", p.idx)
 	return &itemIterator{page: p.idx, ids: p.info().items}, nil
@@ -283,7 +298,7 @@ func (s *source) fetchPage(ctx context.Context, link string, from *pg) (idx int,
 		if s.firstFaultSeq == 0 {
 			s.firstFaultSeq = q
 		}
-		return 0, false, errScripted
+		return 0, false, s.scriptedErr()
 	}
 	q := s.ev("fetch %s -> page %d (%d items)", link, target, len(s.pages[target].items))
 	if target > s.deliveredUpTo {
